@@ -220,6 +220,17 @@ def vary_layout(arr, k):
     return np.ascontiguousarray(arr[..., ::-1])[..., ::-1]
 
 
+def vary_torch(t, k):
+    """The same tensor values in another memory layout: 0 as given, 1 transposed storage (non-contiguous), 2 a strided view
+    of a tensor twice as long.  (PyTorch has no negative strides.)"""
+    k = k % 3
+    if k == 0 or t.dim() < 2 or t.numel() == 0:
+        return t
+    if k == 1:
+        return t.transpose(0, -1).contiguous().transpose(0, -1)
+    return t.repeat_interleave(2, dim=0)[::2]
+
+
 def case_digest(case):
     c = {k: v for k, v in case.items() if not k.startswith("_")}
     return hashlib.sha1(json.dumps(c, sort_keys=True, default=str).encode()).hexdigest()[:12]
